@@ -1,6 +1,8 @@
 #!/bin/sh
-# run every seeded change against its property's check (4 at a time); results in out/seedall.txt
+# run every seeded change against its property's check (P at a time, default 4); logs in out/seedall/<seed>.log,
+# summary in out/seedall.txt; then tools/mkseeds.py turns the logs into docs/SEEDS.md and seeded/*/meta.json
 cd "$(dirname "$0")/.."
-mkdir -p out
-ls seeded | xargs -P 4 -I{} sh -c 'VERIF_JOBS=4 tools/seedrun.sh {} > /tmp/seedall.{}.log 2>&1; rc=$?; ob=$(grep -m1 "^VIOLATION" /tmp/seedall.{}.log | sed "s/.*obligation=//" | cut -c1-110); echo "{} exit=$rc $ob"' | sort > out/seedall.txt
+P=${1:-4}
+mkdir -p out/seedall
+ls seeded | xargs -P "$P" -I{} sh -c 'VERIF_JOBS=${SEED_JOBS:-4} VERIF_WATCHDOG_S=3600 tools/seedrun.sh {} > out/seedall/{}.log 2>&1; rc=$?; ob=$(grep -m1 "^VIOLATION" out/seedall/{}.log | sed "s/.*obligation=//" | cut -c1-110); echo "{} exit=$rc $ob"' | sort > out/seedall.txt
 cat out/seedall.txt
